@@ -67,17 +67,6 @@ func writesOrig(fset *token.FileSet, body *ast.BlockStmt) bool {
 var wrongAssert, readerAsserts, badChild []string
 var nChildCtors int
 
-func countChildCtors(fset *token.FileSet, fd *ast.FuncDecl) int {
-	n := 0
-	ast.Inspect(fd.Body, func(x ast.Node) bool {
-		if call, ok := x.(*ast.CallExpr); ok && len(call.Args) >= 2 && childCtor.MatchString(strings.Join(strings.Fields(src(fset, call.Fun)), "")) {
-			n++
-		}
-		return true
-	})
-	return n
-}
-
 func firstAsserts(body *ast.BlockStmt) bool {
 	if len(body.List) == 0 {
 		return false
@@ -155,33 +144,68 @@ func containsAssert(body *ast.BlockStmt) bool {
 
 var childCtor = regexp.MustCompile(`^(new[A-Z]\w*|internal\.New\w+)$`)
 
-// badChildStates: calls building a child wrapper (`newX(orig, state)` / `internal.NewX(orig, state)`) whose state argument
-// is not the receiver's own state (or, for the destination-side wrapper in CopyTo, the destination's)
-func badChildStates(fset *token.FileSet, fd *ast.FuncDecl) []string {
+// badChildStates: calls building a child wrapper (`new<Wrapper>(orig, state)` / `internal.New<X>(orig, state)`) whose state
+// argument is not the receiver's own state.  In CopyTo the pattern `<ctor>(…).CopyTo(<ctor>(…))` must give the SOURCE-side
+// wrapper the receiver's state and the DESTINATION-side wrapper the destination's state.
+func badChildStates(fset *token.FileSet, fd *ast.FuncDecl, wrapper map[string]bool) []string {
 	recv := ""
 	if len(fd.Recv.List[0].Names) == 1 {
 		recv = fd.Recv.List[0].Names[0].Name
 	}
-	var bad []string
-	ast.Inspect(fd.Body, func(n ast.Node) bool {
-		call, ok := n.(*ast.CallExpr)
-		if !ok || len(call.Args) < 2 || !childCtor.MatchString(strings.Join(strings.Fields(src(fset, call.Fun)), "")) {
-			return true
+	isCtor := func(e ast.Expr) (*ast.CallExpr, bool) {
+		call, ok := e.(*ast.CallExpr)
+		if !ok || len(call.Args) < 2 {
+			return nil, false
 		}
+		f := strings.Join(strings.Fields(src(fset, call.Fun)), "")
+		if strings.HasPrefix(f, "internal.New") {
+			return call, true
+		}
+		if strings.HasPrefix(f, "new") && len(f) > 3 && wrapper[f[3:]] {
+			return call, true
+		}
+		return nil, false
+	}
+	okState := func(call *ast.CallExpr, owner string) bool {
 		st := strings.Join(strings.Fields(src(fset, call.Args[len(call.Args)-1])), "")
-		first := src(fset, call.Args[0])
-		okState := func(owner string) bool {
-			return st == owner+".state" || st == owner+".getState()" ||
-				regexp.MustCompile(`^internal\.Get\w+State\(internal\.\w+\(`+regexp.QuoteMeta(owner)+`\)\)$`).MatchString(st)
-		}
-		switch {
-		case okState(recv):
-		case fd.Name.Name == "CopyTo" && okState("dest") && strings.Contains(first, "dest"):
-		default:
-			bad = append(bad, strings.Join(strings.Fields(src(fset, call)), " "))
+		return st == owner+".state" || st == owner+".getState()" ||
+			regexp.MustCompile(`^internal\.Get\w+State\(internal\.\w+\(`+regexp.QuoteMeta(owner)+`\)\)$`).MatchString(st)
+	}
+	var bad []string
+	handled := map[*ast.CallExpr]bool{}
+	if fd.Name.Name == "CopyTo" {
+		ast.Inspect(fd.Body, func(n ast.Node) bool {
+			call, ok := n.(*ast.CallExpr)
+			if !ok || len(call.Args) != 1 {
+				return true
+			}
+			sel, ok := call.Fun.(*ast.SelectorExpr)
+			if !ok || sel.Sel.Name != "CopyTo" {
+				return true
+			}
+			a, ok1 := isCtor(sel.X)
+			b, ok2 := isCtor(call.Args[0])
+			if ok1 && ok2 {
+				handled[a], handled[b] = true, true
+				if !okState(a, recv) || !okState(b, "dest") {
+					bad = append(bad, strings.Join(strings.Fields(src(fset, call)), " "))
+				}
+			}
+			return true
+		})
+	}
+	ast.Inspect(fd.Body, func(n ast.Node) bool {
+		if e, ok := n.(ast.Expr); ok {
+			if call, ok := isCtor(e); ok && !handled[call] {
+				nChildCtors++
+				if !okState(call, recv) {
+					bad = append(bad, strings.Join(strings.Fields(src(fset, call)), " "))
+				}
+			}
 		}
 		return true
 	})
+	nChildCtors += len(handled)
 	return bad
 }
 
@@ -265,11 +289,10 @@ func main() {
 				if class == "reader" && containsAssert(fd.Body) {
 					readerAsserts = append(readerAsserts, fmt.Sprintf("(%q, %q, %q)", p, id.Name, fd.Name.Name))
 				}
-				for _, b := range badChildStates(fset, fd) {
+				for _, b := range badChildStates(fset, fd, wrapper) {
 					badChild = append(badChild, fmt.Sprintf("(%q, %q, %q)", p, id.Name+"."+fd.Name.Name, b))
 					_ = b
 				}
-				nChildCtors += countChildCtors(fset, fd)
 				n++
 			}
 		}
